@@ -119,13 +119,19 @@ def monotoneFrom (end_ : Nat) : List Nat → Bool
     else if v < end_ then false
     else monotoneFrom v rest
 
+/-- `entries[i]` -/
+def getEntry (es : List Nat) (i : Nat) : M Nat :=
+  match es[i]? with
+  | some e => pure e
+  | none => throw .index
+
 /-- jsonb.go:parseJSONBArray loop, `n` iterations left, at index `i` -/
 def parseArrayLoop (rec : Bytes → M JV) (data : Bytes) (entries : List Nat) (dataStart : Nat) :
     Nat → Nat → M (List JV)
   | 0, _ => pure []
   | n+1, i => do
     let (off, len) ← entryOffLen entries i 0
-    let je ← (match entries[i]? with | some e => pure e | none => throw Fault.index : M Nat)
+    let je ← getEntry entries i
     let v ← decodeJEntry rec data (dataStart + off) len je
     let rest ← parseArrayLoop rec data entries dataStart n (i + 1)
     pure (v :: rest)
@@ -140,7 +146,7 @@ def parseObjectLoop (rec : Bytes → M JV) (data : Bytes) (entries : List Nat) (
     let key ← (if kLen ≥ 0 ∧ dataStart + kOff + kLen.toNat ≤ data.length then
         slice data (dataStart + kOff) (dataStart + kOff + kLen.toNat) else pure [] : M Bytes)
     let (vOff, vLen) ← entryOffLen entries (count + i) 0
-    let je ← (match entries[count + i]? with | some e => pure e | none => throw Fault.index : M Nat)
+    let je ← getEntry entries (count + i)
     let v ← decodeJEntry rec data (dataStart + vOff) vLen je
     let rest ← parseObjectLoop rec data entries dataStart count n (i + 1)
     pure ((key, v) :: rest)
@@ -148,32 +154,36 @@ def parseObjectLoop (rec : Bytes → M JV) (data : Bytes) (entries : List Nat) (
 def buildMap (kvs : List (Bytes × JV)) : List (Bytes × JV) :=
   kvs.foldl (fun m kv => jvInsert m kv.1 kv.2) []
 
+/-- the body of jsonb.go:ParseJSONB; `rec` is ParseJSONB itself (with the remaining fuel), reached
+through decodeJEntry for container children -/
+def parseContainer (rec : Bytes → M JV) (data : Bytes) : M JV := do
+  if data.length < 4 then return .nil
+  let header ← uN 4 data 0
+  let count := header &&& 0x0FFFFFFF
+  let isObj := header &&& 0x20000000 != 0
+  let isArr := header &&& 0x40000000 != 0
+  if (!isObj && !isArr) || count > 10000 then return .nil
+  if count == 0 then return (if isObj then .obj [] else .arr [])
+  let numEntries := if isObj then count * 2 else count
+  if 4 + numEntries * 4 > data.length then return .nil
+  let entries ← readEntries data numEntries 0
+  let dataStart := 4 + numEntries * 4
+  if !monotoneFrom 0 entries then return .nil
+  if isObj then
+    let kvs ← parseObjectLoop rec data entries dataStart count count 0
+    return .obj (buildMap kvs)
+  else
+    let xs ← parseArrayLoop rec data entries dataStart count 0
+    if header &&& 0x10000000 != 0 then
+      match xs with
+      | [x] => return x
+      | _ => return .arr xs
+    return .arr xs
+
 /-- jsonb.go:ParseJSONB with explicit fuel for the recursion through decodeJEntry -/
 def parseJSONBFuel : Nat → Bytes → M JV
   | 0, _ => throw .budget
-  | fuel+1, data => do
-    if data.length < 4 then return .nil
-    let header ← uN 4 data 0
-    let count := header &&& 0x0FFFFFFF
-    let isObj := header &&& 0x20000000 != 0
-    let isArr := header &&& 0x40000000 != 0
-    if (!isObj && !isArr) || count > 10000 then return .nil
-    if count == 0 then return (if isObj then .obj [] else .arr [])
-    let numEntries := if isObj then count * 2 else count
-    if 4 + numEntries * 4 > data.length then return .nil
-    let entries ← readEntries data numEntries 0
-    let dataStart := 4 + numEntries * 4
-    if !monotoneFrom 0 entries then return .nil
-    if isObj then
-      let kvs ← parseObjectLoop (parseJSONBFuel fuel) data entries dataStart count count 0
-      return .obj (buildMap kvs)
-    else
-      let xs ← parseArrayLoop (parseJSONBFuel fuel) data entries dataStart count 0
-      if header &&& 0x10000000 != 0 then
-        match xs with
-        | [x] => return x
-        | _ => return .arr xs
-      return .arr xs
+  | fuel+1, data => parseContainer (parseJSONBFuel fuel) data
 
 /-- jsonb.go:ParseJSONB -/
 def parseJSONB (data : Bytes) : M JV := parseJSONBFuel (data.length + 1) data
